@@ -130,7 +130,7 @@ def gen_layout_program(rng, big=False):
     """labels, relative/absolute references, DATA words and filler whose lengths put reference distances at the
     encoding-length boundaries, in both directions, with chains and alignment absorption"""
     nl = rng.randint(1, 5)
-    stem = rng.choice(['L', 'L', 'L', 'lab_', 'a_rather_long_label_name_', 'x' * rng.randint(1, 28), 'Procedure_With_A_Long_Name'])
+    stem = rng.choice(['L', 'L', 'L', 'lab_', 'a_rather_long_label_name_', 'x' * rng.randint(1, 28), 'Procedure_With_A_Long_Name', 'n' * rng.randint(29, 90) + '_'])
     labels = ['%s%d' % (stem, i) for i in range(nl)]
     kinds = {l: rng.choice(['id', 'id', 'id', 'func', 'proc']) for l in labels}
     items = []
